@@ -1,12 +1,15 @@
 #!/bin/sh
-# usage: tools/try_seeded_sb.sh <patch.diff> <PROP> [<PROP> ...]   -- like try_seeded.sh, but in a private copy of /repo and /verif
-# (tools/sandbox.sh), so that the real /repo stays untouched (a long run may be using it)
+# usage: [SB=<name>] tools/try_seeded_sb.sh <patch.diff> <PROP> [<PROP> ...]   -- like try_seeded.sh, but in a private copy of /repo and /verif
+# (tools/sandbox.sh), so that the real /repo stays untouched (a long run may be using it); SB names the sandbox (default: try), so that
+# several changes can be tried at the same time
+SB="${SB:-try}"
 PATCH="$(readlink -f "$1")"; shift
-cp "$PATCH" /var/tmp/sb-try.diff
+cp "$PATCH" /var/tmp/sb-$SB.diff
 cd "$(dirname "$0")/.."
-tools/sandbox.sh try sh -c '
-  git -C /repo apply /var/tmp/sb-try.diff || { echo "patch does not apply"; exit 2; }
+tools/sandbox.sh $SB sh -c '
+  SB="$1"; shift
+  git -C /repo apply /var/tmp/sb-$SB.diff || { echo "patch does not apply"; exit 2; }
   for P in "$@"; do
-    ./check "$P" > /var/tmp/sb-try-$P.out 2>&1; rc=$?
-    echo "== $P exit=$rc  $(grep -c "^VIOLATION" /var/tmp/sb-try-$P.out) violation lines; first: $(grep "^VIOLATION" /var/tmp/sb-try-$P.out | head -1)"
-  done' sh "$@"
+    ./check "$P" > /var/tmp/sb-$SB-$P.out 2>&1; rc=$?
+    echo "== $P exit=$rc  $(grep -c "^VIOLATION" /var/tmp/sb-$SB-$P.out) violation lines, $(grep "^VIOLATION" /var/tmp/sb-$SB-$P.out | grep -vc no-failing-input-found) with input; first: $(grep "^VIOLATION" /var/tmp/sb-$SB-$P.out | head -1)"
+  done' sh "$SB" "$@"
